@@ -318,9 +318,34 @@ theorem invA_putSub (c : Cfg) (s : St) (p : ObjId) (x : Cid) (ev : Option Bool) 
   · exact invA_setTopic _ _ _ h (subAdd_ne_nil _ _ (h.topics_ne x))
   · exact invA_dropEvent c _ _ x (invA_unsubSt s p x h)
 
+theorem invA_runCallback (c : Cfg) (s : St) (x : Cid) (v : Val) (h : InvA s) : InvA (runCallback c s x v) := by
+  simp only [runCallback]
+  split
+  · exact h
+  · exact invA_writeVal c s x v none h
+  · exact invA_writeVal c s x _ none h
+  · exact invA_writeVal c s _ _ none h
+
+theorem invA_clientUpdate (c : Cfg) (s : St) (x : Cid) (v : Val) (sd : Option Addr) (h : InvA s) :
+    InvA (clientUpdate c s x v sd) := by
+  simp only [clientUpdate]
+  have h2 : InvA (runCallback c (setVal s x v) x v) := invA_runCallback c _ x v (invA_setValue _ _ h)
+  have h3 : InvA (match (runCallback c (setVal s x v) x v).value x with
+    | some u => if (runCallback c (setVal s x v) x v).value x ≠ s.value x then publish c (runCallback c (setVal s x v) x v) x u sd
+                else runCallback c (setVal s x v) x v
+    | none => runCallback c (setVal s x v) x v) := by
+    split
+    · split
+      · exact invA_publish _ _ _ _ _ h2
+      · exact h2
+    · exact h2
+  split
+  · exact invA_setValue _ _ h3
+  · exact h3
+
 theorem invA_putVal (c : Cfg) (s : St) (p : ObjId) (x : Cid) (v : Val) (h : InvA s) : InvA (putVal c s p x v) := by
   simp only [putVal]
-  have h5 := invA_discardStale c _ (s.obj p).addr x (invA_writeVal c s x v (some (s.obj p).addr) h)
+  have h5 := invA_discardStale c _ (s.obj p).addr x (invA_clientUpdate c s x v (some (s.obj p).addr) h)
   exact invA_updGhost _ p _ h5 rfl rfl rfl rfl rfl (h5.last_le p)
 
 theorem invA_putChars (c : Cfg) (s : St) (p : ObjId) (x : Cid) (ev : Option Bool) (val : Option Val) (h : InvA s) :
@@ -613,9 +638,34 @@ theorem rel_putSub (c : Cfg) (s : St) (p : ObjId) (x : Cid) (ev : Option Bool) :
         simp at hm; exact hm.1
       · exact hm
 
+theorem rel_runCallback (c : Cfg) (s : St) (x : Cid) (v : Val) : Rel none s (runCallback c s x v) := by
+  simp only [runCallback]
+  split
+  · exact Rel.refl _ _
+  · exact rel_writeVal c s x v none
+  · exact rel_writeVal c s x _ none
+  · exact rel_writeVal c s _ _ none
+
+theorem rel_clientUpdate (c : Cfg) (s : St) (x : Cid) (v : Val) (sd : Option Addr) : Rel none s (clientUpdate c s x v sd) := by
+  simp only [clientUpdate]
+  have h2 : Rel none s (runCallback c (setVal s x v) x v) :=
+    Rel.trans (rel_setValue s _) (rel_runCallback c (setVal s x v) x v)
+  have h3 : Rel none s (match (runCallback c (setVal s x v) x v).value x with
+    | some u => if (runCallback c (setVal s x v) x v).value x ≠ s.value x then publish c (runCallback c (setVal s x v) x v) x u sd
+                else runCallback c (setVal s x v) x v
+    | none => runCallback c (setVal s x v) x v) := by
+    split
+    · split
+      · exact Rel.trans h2 (rel_publish _ _ _ _ _)
+      · exact h2
+    · exact h2
+  split
+  · exact Rel.trans h3 (rel_setValue _ _)
+  · exact h3
+
 theorem rel_putVal (c : Cfg) (s : St) (p : ObjId) (x : Cid) (v : Val) : Rel none s (putVal c s p x v) := by
   simp only [putVal]
-  exact Rel.trans (Rel.trans (rel_writeVal c s x v _) (rel_discardStale c _ _ x))
+  exact Rel.trans (Rel.trans (rel_clientUpdate c s x v _) (rel_discardStale c _ _ x))
     (rel_updObj _ p _ rfl rfl (fun h => h) (Or.inl rfl))
 
 theorem rel_putChars (c : Cfg) (s : St) (p : ObjId) (x : Cid) (ev : Option Bool) (val : Option Val) :
@@ -1419,6 +1469,30 @@ theorem invQ_discardStale (c : Cfg) (s : St) (a : Addr) (x : Cid) (h : InvQ c s)
         · exact h
   · exact h
 
+theorem invQ_clientUpdate (c : Cfg) (s : St) (x : Cid) (v : Val) (sd : Option Addr) (h : InvQ c s) :
+    InvQ c (clientUpdate c s x v sd) := by
+  simp only [clientUpdate]
+  have h2 : InvQ c (runCallback c (setVal s x v) x v) := by
+    simp only [runCallback]
+    have h1 : InvQ c (setVal s x v) := h
+    split
+    · exact h1
+    · exact invQ_writeVal c _ x v none h1
+    · exact invQ_writeVal c _ x _ none h1
+    · exact invQ_writeVal c _ _ _ none h1
+  have h3 : InvQ c (match (runCallback c (setVal s x v) x v).value x with
+    | some u => if (runCallback c (setVal s x v) x v).value x ≠ s.value x then publish c (runCallback c (setVal s x v) x v) x u sd
+                else runCallback c (setVal s x v) x v
+    | none => runCallback c (setVal s x v) x v) := by
+    split
+    · split
+      · exact invQ_publish c _ _ _ _ h2
+      · exact h2
+    · exact h2
+  split
+  · exact h3
+  · exact h3
+
 theorem invQ_putChars (c : Cfg) (s : St) (p : ObjId) (x : Cid) (ev : Option Bool) (val : Option Val) (h : InvQ c s) :
     InvQ c (putChars c s p x ev val) := by
   have h1 : InvQ c (putSub c s p x ev) := by
@@ -1438,7 +1512,7 @@ theorem invQ_putChars (c : Cfg) (s : St) (p : ObjId) (x : Cid) (ev : Option Bool
   · exact h1
   · rename_i v
     simp only [putVal]
-    have h5 := invQ_discardStale c _ ((putSub c s p x ev).obj p).addr x (invQ_writeVal c (putSub c s p x ev) x v (some ((putSub c s p x ev).obj p).addr) h1)
+    have h5 := invQ_discardStale c _ ((putSub c s p x ev).obj p).addr x (invQ_clientUpdate c (putSub c s p x ev) x v (some ((putSub c s p x ev).obj p).addr) h1)
     exact invQ_updObj c _ p _ h5 (qok_same c _ _ (h5 p) rfl rfl rfl (Nat.le_refl _))
 
 theorem invQ_onReq (c : Cfg) (s : St) (p : ObjId) (r : Req) (h : InvQ c s) : InvQ c (onReq c s p r).1 := by
